@@ -30,7 +30,7 @@ COMPONENTS_STUB = ["file object: io.BytesIO over SimWriter output", "BUFSIZ chun
 ASSUMPTIONS = ["supported predictor geometry: PNG bits 8 or 1, TIFF bits 8; colours 1..4; columns 1..40", "LZW with default EarlyChange=1"]
 PROBES = ["run under settings.STRICT", "damaged data decoded first", "payload of tens of kilobytes", "indirect Length", "indirect Length after stream", "indirect Filter", "indirect DecodeParms", "payload contains endstream", "stream EOL crlf", "lzw beyond 9 bits", "lzw table reset", "png predictor", "png predictor colours>1", "png predictor 1-bit", "tiff predictor", "chain length 3", "abbreviated filter name", "boundary placed at stream keyword", "eviction happened"]
 TIERS = {
-    "quick": {"batches": 16, "runs": 1500, "budget_s": 45},
+    "quick": {"batches": 16, "runs": 1500, "budget_s": 90},
     "thorough": {"batches": 128, "runs": 3000, "budget_s": 900},
 }
 DETERMINISM_SLICE = 6
